@@ -372,6 +372,9 @@ func evaluate(sc *schemaDef, e expectation, before mstate, txn []op, res txnResu
 	}
 	anyErr := false
 	for i, o := range txn {
+		if i >= len(res.Ops) {
+			break // not issued: an earlier operation aborted the transaction
+		}
 		r, v := res.Ops[i], e.verdicts[i]
 		refused := r.Err != ""
 		anyErr = anyErr || refused
@@ -476,6 +479,10 @@ func judge(cf *config, im *impl, before mstate, txn []op) judged {
 	for i, o := range txn {
 		v := chosen.verdicts[i]
 		j.engaged = j.engaged || v.FkEngaged
+		if i >= len(res.Ops) {
+			outc = append(outc, "not issued (transaction aborted)")
+			continue
+		}
 		outc = append(outc, fmt.Sprintf("%s/%s:refused=%v:%s:cascaded=%d", o.Kind, sc.Tables[o.T].Name,
 			res.Ops[i].Err != "", v.reasonList(), v.Cascaded))
 	}
